@@ -141,6 +141,26 @@ def batch_case(out: Outcome, rng, cls, protocol: int) -> None:
         if outs[0] != outs[1]:
             out.violation(f"{cls.__name__}: after save/load the continuation (two compare calls{' with ' + type(cb[0]).__name__ if cb else ''}) differs from the original", rep)
             return
+        # a detector that has already been USED (compare calls, callbacks that ran) is saved and loaded like any other
+        if det.X_ref is None:
+            det.fit(X=ref)
+        try:
+            det.compare(X=t1)
+            used = roundtrip(det, protocol)
+        except Exception as e:  # noqa: BLE001
+            out.violation(f"{cls.__name__}: save/load of a detector after compare calls raised {type(e).__name__}: {e}", rep)
+            return
+        if type(used) is not type(det) or (used.X_ref is None) != (det.X_ref is None):
+            out.violation(f"{cls.__name__}: a detector saved after compare calls is loaded in a different state", rep)
+            return
+        if det.X_ref is not None and not (cls is BWSTest):
+            try:
+                a, b = det.compare(X=t2)[0], used.compare(X=t2)[0]
+                if res_key(a) != res_key(b):
+                    out.violation(f"{cls.__name__}: a detector saved after compare calls gives {res_key(b)} where the original gives {res_key(a)}", rep)
+                    return
+            except MissingFitError:
+                pass
         out.case({"detector": cls.__name__, "protocol": protocol, "callback": rep["callback"]})
 
 
